@@ -913,6 +913,13 @@ def obligations(tier, only=None):
     obs.append(ob_no_rar())
     obs.append(ob_step_true_1d("statio"))
     obs.append(ob_step_true_1d("nonstatio"))
+    # "afterwards refinement steps happen exactly at ...": solve calls the refinement trigger at every iteration, with or
+    # without a validation module (the step contract of solve with refinement replaced by its contract)
+    from contracts import c07, c19
+    for i_ in range(3):
+        for o in (c07.step(c07.rar_config(), 3, i_), c19.val_step(c07.rar_config(), 3, i_, 2)):
+            o.name = o.name.replace("C07/", "C16/solve/").replace("C19/", "C16/solve/")
+            obs.append(o)
     return obs
 
 
